@@ -462,19 +462,25 @@ fn corruption_panic_scenario(seed: u64) -> ScenarioOut {
     let mut sim = b.build();
     let mut bar: Barrier<FsCorruption> = Barrier::build(Reaction::Panic, |_c: &FsCorruption| true);
     let nfiles = r.range(1, 2) as usize;
+    // the triggering read goes through the handle's cursor (std::io::Read) or is positional
+    let cursor_read = r.coin();
     let obs: Rc<RefCell<Vec<String>>> = Rc::new(RefCell::new(vec![]));
     let phase = Rc::new(std::cell::Cell::new(0u32));
     let (o2, ph2) = (obs.clone(), phase.clone());
     sim.client("fs", async move {
         sfs::create_dir_all("/d")?;
-        let files: Vec<sfs::File> = (0..nfiles).map(|i| sfs::OpenOptions::new().read(true).write(true).create(true).open(format!("/d/f{i}")).unwrap()).collect();
+        let mut files: Vec<sfs::File> = (0..nfiles).map(|i| sfs::OpenOptions::new().read(true).write(true).create(true).open(format!("/d/f{i}")).unwrap()).collect();
         for f in &files {
             f.write_all_at(b"0123456789abcdef", 0)?;
         }
         // the corrupted read panics; the caller catches it and carries on
         let res = std::panic::catch_unwind(std::panic::AssertUnwindSafe(|| {
             let mut buf = [0u8; 8];
-            files[0].read_at(&mut buf, 2)
+            if cursor_read {
+                std::io::Read::read(&mut files[0], &mut buf)
+            } else {
+                files[0].read_at(&mut buf, 2)
+            }
         }));
         o2.borrow_mut().push(format!("read: {}", if res.is_err() { "panicked" } else { "returned" }));
         // unrelated fs calls that trigger nothing
@@ -487,7 +493,12 @@ fn corruption_panic_scenario(seed: u64) -> ScenarioOut {
         // the barrier is gone: a corrupted read returns (corrupted) data again
         let res = std::panic::catch_unwind(std::panic::AssertUnwindSafe(|| {
             let mut buf = [0u8; 8];
-            files[0].read_at(&mut buf, 0)
+            if cursor_read {
+                // the same handle, through its cursor again (seek + read)
+                std::io::Seek::seek(&mut files[0], std::io::SeekFrom::Start(0)).and_then(|_| std::io::Read::read(&mut files[0], &mut buf))
+            } else {
+                files[0].read_at(&mut buf, 0)
+            }
         }));
         o2.borrow_mut().push(format!("read after barrier drop: {}", match res { Err(_) => "panicked".to_string(), Ok(r) => format!("{:?}", r.map_err(|e| e.kind())) }));
         Ok(())
@@ -520,6 +531,9 @@ fn corruption_panic_scenario(seed: u64) -> ScenarioOut {
     let _ = vcore::take_last_panic();
     let o = obs.borrow().clone();
     out.count("fs_panic_barrier_scenarios", 1);
+    if cursor_read {
+        out.count("fs_panic_barrier_cursor_reads", 1);
+    }
     let want = vec!["read: panicked".to_string(), "metadata: Ok(Ok(16))".to_string(), "read after barrier drop: Ok(8)".to_string()];
     if o != want {
         out.violate("fs-panic-barrier", "C20|fs|panic-barrier-aftermath".into(), format!("Panic barrier on FsCorruption: observed {o:?}, expected {want:?}"), desc.clone());
@@ -757,6 +771,6 @@ fn fin() -> Finish<'static> {
             "triggers after a Panic-barrier hit are outside the oracle (the host is gone); the hit itself must be reported once".into(),
         ],
         min_distinct: 100,
-        required_counters: vec!["reports_checked", "suspensions_observed", "resumes_observed", "calls_matching_several_barriers", "calls_matching_no_barrier", "panics_surfaced", "fs_corruption_reports", "calls_matching_noop", "flood_scenarios", "fs_sibling_barriers_dropped_before_the_run", "fs_panic_barrier_scenarios", "panic_barrier_hits_reported_once"],
+        required_counters: vec!["reports_checked", "suspensions_observed", "resumes_observed", "calls_matching_several_barriers", "calls_matching_no_barrier", "panics_surfaced", "fs_corruption_reports", "calls_matching_noop", "flood_scenarios", "fs_sibling_barriers_dropped_before_the_run", "fs_panic_barrier_scenarios", "fs_panic_barrier_cursor_reads", "panic_barrier_hits_reported_once"],
     }
 }
